@@ -1,4 +1,5 @@
 import HapVerif.Proofs.Srp
+import HapVerif.Proofs.SrpGen
 import HapVerif.Model.Crypto.Real
 
 /-! # C02 - SRP-6a client values equal those of a spec-conformant accessory -/
@@ -65,7 +66,7 @@ theorem C02_shared_secret_agree (H : Bytes → Bytes) (G : Group) (hG : GroupOK 
     simp only [s, server]
     exact natToBe_val _ _ (by simpa [s, server] using hBlt)
   -- unfold both computations
-  simp only [client, powMod_eq, hsaltb]
+  simp only [client, sharedSecret, powMod_eq, hsaltb]
   simp only [s, server, hAval] at hBval ⊢
   rw [hBval]
   set x := Srp.os2ip (H (salt ++ H (I ++ [58] ++ P))) with hx
@@ -158,5 +159,41 @@ theorem C02_wrong_code_partial (H : Bytes → Bytes) (hinj : Function.Injective 
     H (pre ++ K1) ≠ H (pre ++ K2) := by
   intro e
   exact h (List.append_cancel_left (hinj e))
+
+/-- **The model's shared-secret formula is the source's** (`C02_gen_tie`): the assignments the translator lifts out of
+    `SrpClient.get_shared_secret` on every run (`Gen.Srp.sharedSecretStmts`, `sharedSecretRet`), interpreted over Python's
+    integers for ANY attribute values of the client object (B, k, g, x, n > 0, a) and any scrambling parameter u, compute
+    exactly `Srp.sharedSecret` - the function `C02_shared_secret_agree` is about.  In particular the exponent `a + u*x` is
+    used unreduced, for every a.  The same for the public key `pow(g, a, n)`. -/
+theorem C02_gen_tie (B k g x n a u : Nat) :
+    SrpGen.eval (SrpGen.exec (SrpGen.selfEnv B k g x n a) (SrpGen.callEnv u) Gen.Srp.sharedSecretStmts) (SrpGen.callEnv u)
+      Gen.Srp.sharedSecretRet = (Srp.sharedSecret B k g x n a u : Nat) ∧
+    SrpGen.eval (SrpGen.selfEnv B k g x n a) (SrpGen.callEnv u) Gen.Srp.publicKey = (Srp.powMod g a n : Nat) := by
+  have hpm : ∀ (b e m : Nat), SrpGen.pyPowMod (b : Int) (e : Int) (m : Int) = (Srp.powMod b e m : Nat) := by
+    intro b e m
+    unfold SrpGen.pyPowMod
+    have h1 : ((b : Int) % (m : Int)).toNat = b % m := by
+      rw [← Int.natCast_mod]; exact Int.toNat_natCast _
+    rw [h1, Int.toNat_natCast, Int.toNat_natCast, powMod_eq, powMod_eq, ← Nat.pow_mod]
+  constructor
+  · -- running the source's statements is, by computation, the nested expression they spell out
+    have hrun : SrpGen.eval (SrpGen.exec (SrpGen.selfEnv B k g x n a) (SrpGen.callEnv u) Gen.Srp.sharedSecretStmts) (SrpGen.callEnv u)
+        Gen.Srp.sharedSecretRet =
+        SrpGen.pyPowMod ((B : Int) - (k : Int) * SrpGen.pyPowMod g x n) ((a : Int) + (u : Int) * (x : Int)) n := rfl
+    rw [hrun, hpm g x n]
+    unfold Srp.sharedSecret SrpGen.pyPowMod
+    simp only [Int.toNat_natCast]
+    have : (((a : Int) + (u : Int) * (x : Int))).toNat = a + u * x := by
+      have : ((a : Int) + (u : Int) * (x : Int)) = ((a + u * x : Nat) : Int) := by push_cast; rfl
+      rw [this, Int.toNat_natCast]
+    rw [this]
+  · have hrun : SrpGen.eval (SrpGen.selfEnv B k g x n a) (SrpGen.callEnv u) Gen.Srp.publicKey =
+        SrpGen.pyPowMod (g : Int) (a : Int) (n : Int) := rfl
+    rw [hrun]
+    exact hpm g a n
+
+/-- non-vacuity of the tie: on a toy group the interpreted source statements give the number the model gives -/
+example : SrpGen.eval (SrpGen.exec (SrpGen.selfEnv 9 3 5 4 23 22) (SrpGen.callEnv 2) Gen.Srp.sharedSecretStmts) (SrpGen.callEnv 2)
+    Gen.Srp.sharedSecretRet = (Srp.sharedSecret 9 3 5 4 23 22 2 : Nat) := (C02_gen_tie 9 3 5 4 23 22 2).1
 
 end HapVerif.C02
